@@ -225,9 +225,27 @@ func replayEdits(rep *run.Report, batch []editCase, prop string, serModes int) {
 				fail("parse", "accept", "reject", err.Error())
 				return
 			}
-			// apply the history
+			// apply the history; for set-only histories every second case obtains ALL its iterators before the first edit
+			var pre []*simdjson.Iter
+			if hk == "set" && i%2 == 1 && pathsIndependent(c.hist) {
+				for _, op := range c.hist {
+					pit, nerr := tapex.Nav(pj, op.Path)
+					if nerr != nil {
+						pre = nil
+						break
+					}
+					pre = append(pre, pit)
+				}
+			}
 			for k, op := range c.hist {
-				refused, visits, aerr := tapex.Apply(pj, op, readIterValue)
+				var refused bool
+				var visits []tapex.Visit
+				var aerr error
+				if pre != nil && len(pre) == len(c.hist) {
+					refused, aerr = tapex.ApplySet(pre[k], op)
+				} else {
+					refused, visits, aerr = tapex.Apply(pj, op, readIterValue)
+				}
 				if aerr != nil {
 					fail("apply", "operation applicable", "error", fmt.Sprintf("%s: %v", op, aerr))
 					return
@@ -254,6 +272,21 @@ func replayEdits(rep *run.Report, batch []editCase, prop string, serModes int) {
 			// exact tape and string buffer
 			if terr := tapex.Compare(pj, c.tape, c.sb); terr != nil {
 				fail("tape", "spec tape", "different tape", terr.Error())
+			}
+			// newline-delimited: blank lines, CRLF and a final newline between / after the documents change nothing on the tape
+			if c.nd && len(c.hist) == 0 && c.copy {
+				for vi, sep := range []string{"\n\n", "\r\n", "\n \t\n", "\n\n\n"} {
+					alt := bytes.ReplaceAll(c.text0, []byte("\n"), []byte(sep))
+					if vi%2 == 0 {
+						alt = append(alt, '\n')
+					}
+					apj, aerr := run.Parse(alt, pcfg, nil)
+					if aerr != nil {
+						fail("parse", "accept", "reject", fmt.Sprintf("separator %q: %v", sep, aerr))
+					} else if terr := tapex.Compare(apj, c.tape, c.sb); terr != nil {
+						fail("tape", "spec tape", "different tape", fmt.Sprintf("separator %q: %v", sep, terr))
+					}
+				}
 			}
 			// every read API
 			for _, rd := range read.All {
@@ -706,4 +739,30 @@ func lookupAt(pj *simdjson.ParsedJson, docs []abs.Value, path []int) (err error)
 		return fmt.Errorf("FindKey(absent) returned an element")
 	}
 	return nil
+}
+
+
+// pathsIndependent: no two operations address the same position or a position inside another's
+// (an iterator obtained earlier caches the type of its position).
+func pathsIndependent(h []tapex.Op) bool {
+	for a := range h {
+		for b := range h {
+			if a == b {
+				continue
+			}
+			pa, pb := h[a].Path, h[b].Path
+			if len(pa) <= len(pb) {
+				same := true
+				for k := range pa {
+					if pa[k] != pb[k] {
+						same = false
+					}
+				}
+				if same {
+					return false
+				}
+			}
+		}
+	}
+	return true
 }
